@@ -22,6 +22,7 @@ mod tlv;
 
 mod cat;
 mod clock;
+mod blk;
 mod driver;
 mod pure;
 mod rpc;
@@ -65,6 +66,7 @@ fn main() {
             out.flush().unwrap();
             eprintln!("vfh: {} runs, {} diverged steps", n, div);
         }
+        "blk" => blk::run_file(&args[2], &args[3]),
         "fee" => pure::fee(&args[2], &args[3]),
         "tlv" => pure::tlv(&args[2], &args[3]),
         m => {
